@@ -259,3 +259,10 @@ package font
 //@   atreturn#1 default_without_an_encoding_entry: tt.Encoding == "WinAnsiEncoding"
 //@   atreturn#3 named_encoding: istype(encodingObj, core.Name) && sameseq(tt.Encoding, astype(encodingObj, core.Name))
 //@   atreturn#4 base_encoding_of_the_dictionary: istype(encodingObj, core.Dict) && (isnil(astype(encodingObj, core.Dict).Get("BaseEncoding")) ==> tt.Encoding == "WinAnsiEncoding") && (istype(astype(encodingObj, core.Dict).Get("BaseEncoding"), core.Name) ==> sameseq(tt.Encoding, astype(astype(encodingObj, core.Dict).Get("BaseEncoding"), core.Name)))
+
+//@ func (*Type1Font) parseEncoding results (err)
+//@   property C07
+//@   flags nosafety
+//@   atreturn#1 default_without_an_encoding_entry: t1.Encoding == "StandardEncoding"
+//@   atreturn#3 named_encoding: istype(encodingObj, core.Name) && sameseq(t1.Encoding, astype(encodingObj, core.Name))
+//@   atreturn#6 base_encoding_of_the_dictionary: istype(encodingObj, core.Dict) && (isnil(astype(encodingObj, core.Dict).Get("BaseEncoding")) ==> t1.Encoding == "StandardEncoding") && (istype(astype(encodingObj, core.Dict).Get("BaseEncoding"), core.Name) ==> sameseq(t1.Encoding, astype(astype(encodingObj, core.Dict).Get("BaseEncoding"), core.Name)))
